@@ -5,7 +5,7 @@ sign-magnitude signed and in-place overwrite, plus non-fitting values and reads 
 end.  Random: sequences of up to 200 typed fields.  Oracle: a str-of-bits model."""
 import json
 
-from vlib import runner, sut
+from vlib import runner, sut, fuzz
 from vlib.runner import Outcome, Report, Reject
 from pybufrkit.bitops import get_bit_reader, get_bit_writer
 
@@ -327,6 +327,14 @@ def check_seq(case):
     return out
 
 
+# ---- coverage-guided stage: the same generator and oracle, decisions taken from fuzzer bytes (vlib.fuzz) ----
+def _fuzz_gen(ch):
+    return gen_seq(ch, 60)
+
+
+fuzz_case = fuzz.structured_target(_fuzz_gen, check_seq)
+
+
 def run(tier, seed):
     rep = Report(PID, tier, seed, 'exploration')
     rep.rule = ('exhaustive: width 1..64 x values {0,1,2^(n-1),2^n-2,2^n-1} x bit offset 0..7 for write/read unsigned, '
@@ -352,6 +360,7 @@ def run(tier, seed):
     n = 2000 if tier == 'quick' else 100000
     runner.run_generated(rep, lambda ch: gen_seq(ch, 60 if tier == 'quick' else 200), check_seq, n, workers,
                          stage='sequences')
+    fuzz.run_structured(rep, 'checks.c19', _fuzz_gen, tier)
     return rep.finish()
 
 
